@@ -17,8 +17,21 @@ import (
 	"golang.org/x/tools/go/ssa/ssautil"
 )
 
-const repoDir = "/repo"
+// repoDir is the repository under verification. Registered checks always use /repo; GOVC_REPO lets a developer point the
+// tool at a scratch worktree (mutant sweeps) and GOVC_OUT redirects evidence/ and replay/ so that such runs never
+// overwrite the evidence of the real tree.
+var repoDir = envOr("GOVC_REPO", "/repo")
+
 const verifDir = "/verif"
+
+var outDir = envOr("GOVC_OUT", verifDir)
+
+func envOr(k, d string) string {
+	if v := os.Getenv(k); v != "" {
+		return v
+	}
+	return d
+}
 
 func loadWorld(patterns []string) (*World, error) {
 	cfg := &packages.Config{Mode: packages.LoadAllSyntax, Dir: repoDir, BuildFlags: []string{"-tags=verif"},
@@ -226,6 +239,35 @@ func main() {
 			}
 			fn.WriteTo(os.Stdout)
 		}
+	case "guarded":
+		// lists the repository functions that read or write a field annotated guarded_by
+		w, err := loadWorld([]string{"./src/..."})
+		must(err)
+		var ks []string
+		for k, fn := range w.funcs {
+			if !w.isRepoFunc(fn) || strings.HasSuffix(w.prog.Fset.Position(fn.Pos()).Filename, "_test.go") {
+				continue
+			}
+			hit := false
+			for _, b := range fn.Blocks {
+				for _, in := range b.Instrs {
+					if fa, ok := in.(*ssa.FieldAddr); ok {
+						if st, tn, ok := structOf(fa.X.Type()); ok {
+							if ann := w.specs.FieldAnn[tn+"."+st.Field(fa.Field).Name()]; ann != nil && ann["guarded_by"] != "" {
+								hit = true
+							}
+						}
+					}
+				}
+			}
+			if hit {
+				ks = append(ks, k)
+			}
+		}
+		sort.Strings(ks)
+		for _, k := range ks {
+			fmt.Println(k)
+		}
 	case "writes":
 		w, err := loadWorld([]string{"./src/..."})
 		must(err)
@@ -308,9 +350,9 @@ func main() {
 		must(err)
 		var keys []string
 		for k, c := range w.specs.Contracts {
-			if strings.Contains(c.File, "/repo/") && w.funcs[k] != nil {
+			if strings.Contains(c.File, repoDir+"/") && w.funcs[k] != nil {
 				keys = append(keys, k)
-			} else if strings.Contains(c.File, "/repo/") {
+			} else if strings.Contains(c.File, repoDir+"/") {
 				fmt.Println("TARGET-MISSING", k, c.File)
 			}
 		}
